@@ -143,6 +143,15 @@ class Iter:
         return "Iter(%d/%d)" % (self.i, len(self.v.items))
 
 
+class MapVal:
+    """std::map with concrete keys."""
+    def __init__(self, d=None):
+        self.d = d if d is not None else {}
+
+    def __repr__(self):
+        return "Map%r" % (self.d,)
+
+
 class Closure:
     def __init__(self, node, env, this):
         self.node = node
@@ -976,6 +985,23 @@ class Interp:
             raise Unsupported("std::vector constructor form")
         if cname.startswith("std::basic_ostringstream") or cname.startswith("std::basic_stringstream"):
             return StreamVal()
+        if cname.startswith("std::map<"):
+            if n.get("copy") and args:
+                return copy.deepcopy(self.ev(args[0], env))
+            m = MapVal()
+            if args and args[0].get("k") != "CXXDefaultArgExpr":
+                lst = self.ev(args[0], env)
+                if isinstance(lst, list):
+                    for pr in lst:
+                        if isinstance(pr, Obj) and "first" in pr.f:
+                            m.d[pr.f["first"]] = pr.f["second"]
+                        else:
+                            raise Unsupported("std::map initialiser element %r" % (pr,))
+                elif isinstance(lst, MapVal):
+                    m = copy.deepcopy(lst)
+                else:
+                    raise Unsupported("std::map constructor argument %r" % (lst,))
+            return m
         if cname.startswith("std::function"):
             return self.ev(args[0], env) if args else None
         if cname.startswith("std::pair"):
@@ -1034,6 +1060,14 @@ class Interp:
         if t.startswith("std::vector"):
             return Vec([self.ev(c, env) for c in n.get("ch", [])], _first_targ(t))
         ch = n.get("ch", [])
+        if t.startswith("std::pair<") or t.startswith("const std::pair<"):
+            o = Obj("std::pair")
+            if len(ch) == 2:
+                o.f["first"] = self.ev(ch[0], env)
+                o.f["second"] = self.ev(ch[1], env)
+                return o
+        if t.endswith("]"):
+            return [self.ev(c, env) for c in ch]
         if len(ch) == 1:
             return self.ev(ch[0], env)
         raise Unsupported("init list of type %s" % t)
@@ -1181,7 +1215,7 @@ class Interp:
 
     # ---- std:: modelling -------------------------------------------------------
     def std_member(self, n, cname, base, args, env, want_ref):
-        meth = cname.split("::")[-1]
+        meth = _basename(cname)
         recv = self.lv(base, env).get() if _strip(base).get("lv") else self.ev(base, env)
         if isinstance(recv, Vec):
             if meth == "size":
@@ -1221,6 +1255,20 @@ class Interp:
                 return Iter(recv, 0)
             if meth in ("end", "cend"):
                 return Iter(recv, len(recv.items))
+        if isinstance(recv, MapVal):
+            if meth == "at":
+                k = self.ev(args[0], env)
+                if isinstance(k, bool):
+                    k = int(k)
+                if k not in recv.d:
+                    raise Thrown("std::out_of_range")
+                return recv.d[k]
+            if meth == "count":
+                return 1 if self.ev(args[0], env) in recv.d else 0
+            if meth == "size":
+                return len(recv.d)
+            if meth == "empty":
+                return not recv.d
         if isinstance(recv, StreamVal):
             if meth == "str":
                 return recv
@@ -1298,7 +1346,7 @@ class Interp:
         raise Unsupported("std operator %s (%s)" % (op, cname))
 
     def std_free(self, n, cname, args, env):
-        nm = cname.split("::")[-1]
+        nm = _basename(cname)
         if nm in ("fabs", "abs", "fabsf"):
             v = self.num(self.ev(args[0], env))
             s = self.sign(v)
@@ -1343,6 +1391,20 @@ class Interp:
 
 
 _C_FUNCS = {"fabs", "abs", "sqrt", "printf", "fprintf", "floor", "ceil", "pow", "atan", "acos", "fflush"}
+
+
+def _basename(cname):
+    """Unqualified function name with template argument lists removed."""
+    out = []
+    depth = 0
+    for ch in cname:
+        if ch == "<":
+            depth += 1
+        elif ch == ">":
+            depth -= 1
+        elif depth == 0:
+            out.append(ch)
+    return "".join(out).split("::")[-1]
 
 
 def _strip(n):
